@@ -161,12 +161,27 @@ impl Responder {
         gatekeeper: Arc<Gatekeeper>,
         dbm: Arc<Mutex<DBM>>,
     ) -> Self {
+        // Trackers recorded as confirmed above the block we are (re)starting from got their confirmation in a block that was being
+        // processed when the tower went down. That block will be processed again if it is still part of the chain, but it may have
+        // been reorged out in the meantime (and its disconnection will never be notified). Hence, such confirmations cannot be
+        // trusted: the trackers are treated as reorged ones, that is, re-sent and flagged as confirmed once seen in a block again.
+        let reorged_trackers = dbm
+            .lock()
+            .unwrap()
+            .load_penalties_summaries()
+            .into_iter()
+            .filter_map(|(uuid, summary)| match summary.status {
+                ConfirmationStatus::ConfirmedIn(h) if h > last_known_block_height => Some(uuid),
+                _ => None,
+            })
+            .collect();
+
         Responder {
             carrier: Mutex::new(carrier),
             tx_index: Mutex::new(TxIndex::new(last_n_blocs, last_known_block_height)),
             dbm,
             gatekeeper,
-            reorged_trackers: Mutex::new(HashSet::new()),
+            reorged_trackers: Mutex::new(reorged_trackers),
         }
     }
 
